@@ -23,26 +23,28 @@
     [corr_ok]: the code-structured model (Model/UStat, UDistImpl, UTest) agrees
     with what the implementation returned. [prop_ok]: what the implementation
     returned satisfies the specification (pair count; exact tail probabilities
-    of Model/UDistSpec; the normal approximation recomputed; error cases).
+    of Model/UDistSpec; the declarative normal approximation of Model/UApproxSpec
+    in exact rationals with math.Erfc from the oracle table; error cases; the legacy
+    benchstat.UTest judged like the two-sided test).
 
-    Float comparison: bit patterns where the code is integer-exact (U; tied
-    p-values with N <= 20, where mathChoose is integer arithmetic; the whole
-    normal approximation given Erfc); otherwise the float p against the exact
-    fraction a/b:  |p - a/b| <= 1e-12 * a/b + slack, with slack = 0 in general,
-    4e-16 where the code forms 1 - CDF (cancellation loses relative accuracy by
-    construction), and 1e-13 when N = n1+n2 > 20 AND there are ties, where the
-    implementation's binomials are exp(lgamma) and differences of large counts
-    (PMF, upper tail) are only absolutely accurate. Without ties the code runs a
-    recurrence of positive terms (relative accuracy in every entry, also for
-    n1, n2 = 50 where C(100,50) ~ 1e29): slack 0, and 4e-16 for 1 - CDF, for all
-    sizes, so that p-values in the far tails are judged as well.
+    Float comparison in [prop_ok]: U by bit pattern; an exact-regime p-value P against
+    the exact fraction a/b:  |P - a/b| <= 1e-12 * a/b, NO absolute slack, and 0 <= P:
+    after hooks/fix_c11_utest_greater_mirror.diff every p-value is a distribution function
+    (a sum of positive terms over C(N, n1); the upper tail is the lower tail of the
+    mirrored distribution), accurate relatively, so far tails are judged as well
+    (1e-14 with ties at N = 50, 1e-29 without).  UDist.CDF likewise; UDist.PMF with
+    ties is a difference of two such values: absolute slack 1e-13 when N > 20 (the
+    binomials are exp(lgamma)), sign not demanded.  Approximate regime: the declarative
+    approximation of Model/UApproxSpec.v, relative 1e-12.  [corr_ok] keeps its own
+    comparison (bitwise where the code is integer-exact and for the whole normal
+    approximation given Erfc, else 1e-12 relative + slack_base / slack_compl).
 
     Untied samples beyond the enumeration budget (N > 14; in particular both
     sizes in 30..50): the specification's counts are evaluated in unbounded
     integers by Model/UDistUntiedEval.v ([untied_le], [untied_table]), proved equal
     to [count_le] / [count_eq] for all sizes (C11_untied_evaluator_le, _ge, _table_le, _table_eq). *)
 From Perf Require Import Base.Bytes Base.Sx Base.B64 Base.SxF.
-From Perf Require Import Model.UStat Model.UDistSpec Model.UDistImpl Model.UTest Model.UDistUntiedEval Model.UTestHist.
+From Perf Require Import Model.UStat Model.UDistSpec Model.UDistImpl Model.UTest Model.UDistUntiedEval Model.UTestHist Model.UApproxSpec.
 Local Open Scope Z_scope.
 
 (** ** decoding *)
@@ -163,8 +165,18 @@ Definition close (x : b64) (num den abs16 : Z) : bool :=
   | None => false
   end.
 
-(** -1e-12 <= x <= 1 + 1e-12: a probability, whatever else is wrong *)
+(** 0 <= x <= 1 + 1e-12: a probability (never negative), whatever else is wrong *)
 Definition in_unit (x : b64) : bool :=
+  match q_of_b64 x with
+  | Some (pn, pd) => (0 <=? pn) && (pn * 10 ^ 12 <=? pd * (10 ^ 12 + 1))
+  | None => false
+  end.
+
+(** -1e-12 <= x <= 1 + 1e-12, for UDist.PMF only: with ties it is a DIFFERENCE of two
+    distribution-function values, so a mass that is exactly 0 may come out as -1e-15;
+    the property asks for the masses to sum to 1 and to accumulate to the distribution
+    function, not for a sign *)
+Definition in_unit_tol (x : b64) : bool :=
   match q_of_b64 x with
   | Some (pn, pd) => (- pd <=? pn * 10 ^ 12) && (pn * 10 ^ 12 <=? pd * (10 ^ 12 + 1))
   | None => false
@@ -208,13 +220,17 @@ Definition spec_eq (t : list Z) (n1 u : Z) : Z :=
 Definition slack_base_t (t : list Z) : Z := if is_ones t then 0 else slack_base (zsum t).
 Definition slack_compl_t (t : list Z) : Z := if is_ones t then 4 else slack_compl (zsum t).
 
-(** the property's p-value: (numerator, denominator, absolute slack in 1e-16) *)
+(** the property's p-value: (numerator, denominator, absolute slack in 1e-16).
+    No absolute slack: every p-value of the (repaired) exact path is a distribution
+    function, i.e. a sum of positive terms divided by C(N, n1) (the upper tail is the
+    lower tail of the mirrored distribution: hooks/fix_c11_utest_greater_mirror.diff), so
+    it is accurate RELATIVELY and tails of 1e-14 (ties, N = 50) or 1e-29 (no ties) are judged. *)
 Definition spec_p (t : list Z) (n1 twoU : Z) (a : alt) : Z * Z * Z :=
   let tot := total t n1 in
   match a with
-  | Less => (spec_le t n1 twoU, tot, slack_base_t t)
-  | Greater => (spec_ge t n1 twoU, tot, slack_compl_t t)
-  | Differs => (Z.min tot (2 * Z.min (spec_le t n1 twoU) (spec_ge t n1 twoU)), tot, slack_base_t t)
+  | Less => (spec_le t n1 twoU, tot, 0)
+  | Greater => (spec_ge t n1 twoU, tot, 0)
+  | Differs => (Z.min tot (2 * Z.min (spec_le t n1 twoU) (spec_ge t n1 twoU)), tot, 0)
   end.
 
 Definition exact_regime (t : list Z) (n1 n2 : Z) : bool :=
@@ -231,7 +247,76 @@ Definition erfc_of (tbl : list (Z * Z)) (x : b64) : option b64 :=
 Definition U_of_twoU (twoU : Z) : b64 := b64_of_ZE twoU (-1).
 
 (** ** kind 1: the test *)
-Definition prop_ok_u (c : ucase) : bool :=
+
+(** The recorded deviation C11_twosided_asymmetric_ties: the value the code's
+    two-sided rule takes on the EXACT distribution (1 when U1 = U2, else the
+    lower tail at min(U1, U2) doubled and capped at 1).  It differs from the
+    property's value only for tie vectors that are not palindromes. *)
+Definition finding_p (t : list Z) (n1 n2 twoU : Z) : Z * Z :=
+  let tot := total t n1 in
+  let twoU' := 2 * (n1 * n2) - twoU in
+  if twoU =? twoU' then (tot, tot)
+  else (Z.min tot (2 * spec_le t n1 (Z.min twoU twoU')), tot).
+
+Definition palindrome (t : list Z) : bool := list_eqb Z.eqb (rev t) t.
+
+(** the observed p-value [P] of alternative [a] in the exact regime.  [relax]
+    (only in [known_ok]): for the two-sided alternative with a tied, non-palindromic
+    tie vector the recorded value [finding_p] is accepted as well - nothing else. *)
+Definition exact_p_ok (relax : bool) (t : list Z) (n1 n2 twoU : Z) (a : alt) (P : b64) : bool :=
+  let '(num, den, slack) := spec_p t n1 twoU a in
+  close P num den slack
+  || (relax
+      && match a with
+         | Differs =>
+             has_ties t && negb (palindrome t)
+             && (let '(fn, fd) := finding_p t n1 n2 twoU in close P fn fd slack)
+         | _ => false
+         end).
+
+(** the observed p-value in the approximate regime: the declarative normal
+    approximation of Model/UApproxSpec.v (exact rationals; square roots removed by
+    squaring), with math.Erfc taken from the case's oracle table: SOME recorded pair
+    (x, erfc x) has x = the declarative argument -z/sqrt 2 within a relative 2e-15, and
+    P is the rational function of erfc x the approximation prescribes, within a
+    relative 1e-12 (+ 4e-16 absolute where a complement 1 - Phi is formed). *)
+Definition approx_p_ok (orc : list (Z * Z)) (t : list Z) (n1 n2 twoU : Z) (a : alt) (P : b64) : bool :=
+  existsb (fun kv =>
+             match q_of_b64 (b64_of_bits (fst kv)), q_of_b64 (b64_of_bits (snd kv)) with
+             | Some (xn, xd), Some (en, ed) =>
+                 arg_ok n1 n2 t twoU a xn xd
+                 && (0 <=? en) && (en <=? 2 * ed)
+                 && (let '(num, den) := approx_spec_p a en ed in
+                     close P num den (match a with Less => 0 | _ => 4 end))
+             | _, _ => false
+             end) orc.
+
+Definition p_ok (relax : bool) (orc : list (Z * Z)) (x1 x2 : list Z) (a : alt) (P : b64) : bool :=
+  let n1 := zlen x1 in let n2 := zlen x2 in
+  let t := pool_T x1 x2 in
+  let twoU := twoU_pairs x1 x2 in
+  in_unit P
+  && (if exact_regime t n1 n2 then exact_p_ok relax t n1 n2 twoU a P
+      else approx_p_ok orc t n1 n2 twoU a P).
+
+(** the legacy benchstat.UTest (an observable of the property): the two-sided
+    p-value, or the two errors, judged by the same clauses as the test itself *)
+Definition legacy_ok (relax : bool) (c : ucase) : bool :=
+  let x1 := u_x1 c in let x2 := u_x2 c in
+  let empty := (zlen x1 =? 0) || (zlen x2 =? 0) in
+  match u_legacy c with
+  | LNone => true
+  | LPanic | LOther => false
+  | LErrSize => empty
+  | LErrEqual => negb empty && all_equal (x1 ++ x2)
+  | LP p =>
+      negb empty && negb (all_equal (x1 ++ x2))
+      && (* bit-equal to a two-sided P that [judge_u] judges anyway: nothing to add *)
+         ((match u_alt c, u_out c with Differs, ONum _ _ _ P _ => same_bits p P | _, _ => false end)
+          || p_ok relax (u_oracle c) x1 x2 Differs p)
+  end.
+
+Definition judge_u (relax : bool) (c : ucase) : bool :=
   let x1 := u_x1 c in let x2 := u_x2 c in
   let n1 := zlen x1 in let n2 := zlen x2 in
   match u_out c with
@@ -242,20 +327,13 @@ Definition prop_ok_u (c : ucase) : bool :=
       negb ((n1 =? 0) || (n2 =? 0)) && negb (all_equal (x1 ++ x2))
       && (o1 =? n1) && (o2 =? n2) && (ae =? alt_code (u_alt c))
       && same_bits U (U_of_twoU (twoU_pairs x1 x2))
-      && in_unit P
-      && (let t := pool_T x1 x2 in
-          let twoU := twoU_pairs x1 x2 in
-          if exact_regime t n1 n2 then
-            let '(num, den, slack) := spec_p t n1 twoU (u_alt c) in
-            close P num den slack
-          else
-            (* the tie- and continuity-corrected normal approximation, recomputed *)
-            let s := mkUstat n1 n2 t [] (has_ties t) twoU in
-            match approx_p (erfc_of (u_oracle c)) s (u_alt c) with
-            | Some p => same_bits P p
-            | None => false
-            end)
-  end.
+      && p_ok relax (u_oracle c) x1 x2 (u_alt c) P
+  end
+  && legacy_ok relax c.
+
+Definition prop_ok_u (c : ucase) : bool := judge_u false c.
+(** the property with exactly the recorded two-sided deviation allowed *)
+Definition known_ok_u (c : ucase) : bool := judge_u true c.
 
 Definition p_matches (N : Z) (pe : pexact) (bitexact : bool) (P : b64) : bool :=
   if bitexact then
@@ -344,14 +422,23 @@ Definition hist_le (h : list Z) (u : Z) : Z :=
 Definition hist_eq (h : list Z) (u : Z) : Z :=
   if u <? 0 then 0 else nth (Z.to_nat u) h 0.
 
+(** PMF(x) is Pr[U = x'] with x' = x rounded DOWN to the nearest point of the grid
+    Step() = 1/2 the distribution is defined on (the contract of DiscreteDist.PMF in
+    internal/stats/dist.go); CDF(x) = Pr[U <= x].  With q = 4x: 2x' = q / 2 (floor), and
+    both are the declarative counts at 2U = q / 2, for EVERY q: half-integer points of an
+    untied distribution carry no mass ([count_eq] of an all-ones tie vector at an odd
+    2U is 0: count_eq_ones_odd), quarter points round down.
+    A tie vector with one run (all values equal; K < 2): the statistic is the constant
+    n1 n2 / 2; the code refuses such a vector by a panic ("reported as errors rather than
+    numbers"), so a panic is accepted there - a NUMBER must still be the true value. *)
 Definition prop_ok_d (c : dcase) : bool :=
   let n1 := d_n1 c in let n2 := d_n2 c in
   let t := spec_T n1 n2 (d_T c) in
   match t with
-  | [] | [_] => true        (* K < 2: outside the distribution's precondition *)
+  | [] => true              (* no values at all *)
   | _ =>
+      let single := match t with [_] => true | _ => false end in
       let tot := total t n1 in
-      let step := if has_ties t then 2 else 4 in     (* support: half-integers with ties, integers without *)
       let small := vec_budget t <=? enum_budget in
       let untied := is_ones t in
       (* one table per case: the fast evaluator's histogram with ties, the Mann-Whitney counts without *)
@@ -359,18 +446,16 @@ Definition prop_ok_d (c : dcase) : bool :=
       let le u := if small then count_le t n1 u else if untied then tab_le h u else hist_le h u in
       let eq u := if small then count_eq t n1 u else if untied then tab_eq h u else hist_eq h u in
       let slack := slack_base_t t in
+      let cdf_ok q xc :=
+        in_unit xc &&
+        (if q <? 0 then close xc 0 1 0
+         else if 4 * (n1 * n2) <=? q then close xc 1 1 0
+         else close xc (le (q / 2)) tot 0) in       (* a sum of positive terms: relative accuracy *)
+      let pmf_ok q xp :=
+        in_unit_tol xp && (if q <? 0 then close xp 0 1 0 else close xp (eq (q / 2)) tot slack) in
       forallb (fun '(q, oc, op) =>
-                 match oc, op with
-                 | FNum xc, FNum xp =>
-                     in_unit xc && in_unit xp &&
-                     (if q <? 0 then close xc 0 1 0
-                      else if 4 * (n1 * n2) <=? q then close xc 1 1 0
-                      else close xc (le (q / 2)) tot slack)
-                     && (if q mod step =? 0 then
-                           (if q <? 0 then close xp 0 1 0 else close xp (eq (q / 2)) tot slack)
-                         else true)
-                 | _, _ => false
-                 end)
+                 match oc with FNum xc => cdf_ok q xc | FPanic => single end
+                 && match op with FNum xp => pmf_ok q xp | FPanic => single end)
               (d_q c)
   end.
 
@@ -459,12 +544,24 @@ Definition prop_ok_c (c : ccase) : bool :=
 Definition corr_ok_c (c : ccase) : bool :=
   forallb (fun j => corr_ok_u (j_case j) && job_conc_ok j) (cc_jobs c).
 
+(** ** the known finding C11_twosided_asymmetric_ties: [known_ok] is [prop_ok] with
+    exactly that deviation allowed (kind 1, two-sided alternative or the legacy
+    benchstat.UTest, exact regime, tied non-palindromic tie vector: the p-value may be
+    the code's "lower tail at min(U1,U2) doubled" instead of twice the smaller tail).
+    Histories and concurrent batches are never tagged (the generator keeps the
+    finding's inputs out of them), the distribution and the constant samples are not
+    concerned: there [known_ok] is [prop_ok]. *)
+Definition same3 (corr prop : bool) : N := code_of3 corr prop prop.
 Definition run_case (s : sx) : N :=
   match decode s with
-  | Some (CH c) => code_of (corr_ok_h c) (prop_ok_h c)
-  | Some (CC c) => code_of (corr_ok_c c) (prop_ok_c c)
-  | Some (CU c) => code_of (corr_ok_u c) (prop_ok_u c)
-  | Some (CD c) => code_of (corr_ok_d c) (prop_ok_d c)
-  | Some (CE c) => code_of (corr_ok_e c) (prop_ok_e c)
+  | Some (CH c) => same3 (corr_ok_h c) (prop_ok_h c)
+  | Some (CC c) => same3 (corr_ok_c c) (prop_ok_c c)
+  | Some (CU c) =>
+      (* the relaxed judge is evaluated only when the strict one fails (it is weaker:
+         known_ok_u_weaker) *)
+      if prop_ok_u c then code_of3 (corr_ok_u c) true true
+      else code_of3 (corr_ok_u c) false (known_ok_u c)
+  | Some (CD c) => same3 (corr_ok_d c) (prop_ok_d c)
+  | Some (CE c) => same3 (corr_ok_e c) (prop_ok_e c)
   | None => code_undecodable
   end.
